@@ -45,16 +45,18 @@ pub mod verif {
   pub struct VerifNode {
     pub is_task: bool,
     pub key: String,
+    pub key_type: Option<std::any::TypeId>,
     pub output: Option<String>,
     pub rank: usize,
     pub outgoing: Vec<VerifEdge>,
-    pub incoming: Vec<String>,
+    pub incoming: Vec<(String, Option<std::any::TypeId>)>,
   }
   /// One outgoing edge (dependency) of a node, in iteration order.
   #[derive(Clone, Debug)]
   pub struct VerifEdge {
     pub target_is_task: bool,
     pub target: String,
+    pub target_type: Option<std::any::TypeId>,
     pub kind: &'static str,
     pub checker: String,
     pub stamp: String,
